@@ -36,6 +36,10 @@ func (r *byteReader) remaining() int {
 }
 
 func (r *byteReader) read(n int) ([]byte, error) {
+	if n < 0 {
+		// e.g. a tagged-field size >= 2^63 converted to int
+		return nil, fmt.Errorf("invalid length %d", n)
+	}
 	if r.remaining() < n {
 		return nil, fmt.Errorf("insufficient bytes: need %d have %d", n, r.remaining())
 	}
